@@ -154,6 +154,8 @@ QUOTE_DOCS = [
     # tags whose body contains their own delimiter character stay protected
     ('tags_own_delims', 'Row {% if loop.index % 2 == 0 and kind == "odd" %} is "odd" and {# issue #12 isn\'t "x" #} and {{ {"a": 1}["a"] or "none" }} don\'t change.\n\n'
                         '{% set pct = "50%" %}\n"Quoted" line {%- if a % b -%} it\'s {%- endif -%} here.\n'),
+    # scopes whose composite text starts or ends with a non-text inline that holds edge spaces
+    ('code_first', '` --verbose` sets the "mode" value and it\'s fine.\n\n# ` x` isn\'t "plain"\n\n| ` a` "q" | it\'s |\n|---|---|\n| "b" ` c ` | \'d\' |\n\n- ` lead` item\'s "text"\n\n"ends with code" ` tail `\n'),
     ('sentence_ends_list', '- The first item says it is "done". And then a second sentence follows here.\n- Another item asks \'why not\'? Because the answer is long enough.\n\n'
                            '> Quoted text ends with "this". Then another sentence inside the quote.\n'),
 ]
